@@ -30,7 +30,7 @@ use palette::luma::Luma;
 use palette::num as pn;
 use palette::rgb::Rgb;
 use palette::white_point::D65;
-use palette::{Alpha, Clamp, Darken, Desaturate, IsWithinBounds, Lighten, Mix, Saturate, ShiftHue};
+use palette::{Alpha, Clamp, ClampAssign, Darken, Desaturate, IsWithinBounds, Lighten, LightenAssign, Mix, MixAssign, Saturate, SaturateAssign, ShiftHue, ShiftHueAssign};
 use palette::{Hsl, Hsluv, Hsv, Hwb, Lab, Lch, Lchuv, Luv, Okhsl, Okhsv, Okhwb, Oklab, Oklch, Xyz, Yxy};
 use pvh::*;
 use serde_json::{json, Value};
@@ -612,6 +612,38 @@ fn pack_event<A: SNode>(rng: &mut Sm64, alpha: bool) -> Value {
     json!({"ev": "pack", "node": <A::Sc as Node>::NAME, "vt": <A::V as Wd>::VT, "t": <SOf<A>>::TN, "n": n, "alpha": alpha as u8,
            "in": inb, "comps": cb, "back": bb, "panic": panic})
 }
+/// premultiplied colours: [PreAlpha<C<S>>; N] -> PreAlpha<C<V>> -> [PreAlpha<C<S>>; N], recorded like the Alpha form
+fn prealpha_pack_events(rng: &mut Sm64, rec: &mut Rec) {
+    use palette::blend::PreAlpha;
+    macro_rules! one {
+        ($name:expr, $C:ident, $V:ident, $S:ident, $N:expr, |$c:ident| [$($f:expr),*], |$w:ident| $mk:expr) => {{
+            let vals: Vec<[$S; 4]> = (0..$N).map(|_| [special_bits::<$S>(rng), special_bits::<$S>(rng), special_bits::<$S>(rng), special_bits::<$S>(rng)]).collect();
+            let inb: Vec<Vec<String>> = vals.iter().map(|v| v.iter().map(|x| x.bits()).collect()).collect();
+            let r = catch(|| {
+                let a: [PreAlpha<$C<$S>>; $N] = core::array::from_fn(|i| { let $w = vals[i]; PreAlpha { color: $mk, alpha: $w[3] } });
+                let p: PreAlpha<$C<$V>> = a.into();
+                let comps: Vec<$V> = { let $c = p.color; vec![$($f),*, p.alpha] };
+                let cb: Vec<Vec<String>> = comps.iter().map(|v| v.to_vec().iter().map(|x| x.bits()).collect()).collect();
+                let back: [PreAlpha<$C<$S>>; $N] = p.into();
+                let bb: Vec<Vec<String>> = back.iter().map(|x| { let $c = x.color; let mut b: Vec<String> = vec![$($f.bits()),*]; b.push(x.alpha.bits()); b }).collect();
+                (cb, bb)
+            });
+            let (cb, bb, panic) = match r { Ok((c, b)) => (c, b, 0), Err(_) => (vec![], vec![], 1) };
+            rec.ev(json!({"ev": "pack", "node": $name, "vt": stringify!($V), "t": stringify!($S), "n": $N, "alpha": 1, "wrap": "prealpha",
+                          "in": inb, "comps": cb, "back": bb, "panic": panic}));
+        }};
+    }
+    type LinSrgb<T> = Rgb<Linear<SrgbStd>, T>;
+    type XyzD<T> = Xyz<D65, T>;
+    macro_rules! all_v { ($name:expr, $C:ident, |$c:ident| [$($f:expr),*], |$w:ident| $mk:expr) => {
+        one!($name, $C, f32x4, f32, 4, |$c| [$($f),*], |$w| $mk); one!($name, $C, f32x8, f32, 8, |$c| [$($f),*], |$w| $mk);
+        one!($name, $C, f64x2, f64, 2, |$c| [$($f),*], |$w| $mk); one!($name, $C, f64x4, f64, 4, |$c| [$($f),*], |$w| $mk);
+    }; }
+    all_v!("linsrgb", LinSrgb, |c| [c.red, c.green, c.blue], |w| LinSrgb::new(w[0], w[1], w[2]));
+    all_v!("xyz", XyzD, |c| [c.x, c.y, c.z], |w| XyzD::new(w[0], w[1], w[2]));
+    all_v!("oklab", Oklab, |c| [c.l, c.a, c.b], |w| Oklab::new(w[0], w[1], w[2]));
+}
+
 macro_rules! pack_row { ($T:ident; [$($A:ident),*]; $list:tt) => { vec![ $( pack_event::<$A<$T>> as PackFn ),* ] }; }
 fn pack_fns() -> Vec<Vec<PackFn>> {
     vec![with_nodes!(pack_row, f32x4), with_nodes!(pack_row, f32x8), with_nodes!(pack_row, f64x2), with_nodes!(pack_row, f64x4)]
@@ -775,6 +807,19 @@ opfn!(op_shift_hue, { A: SNode + ShiftHue<Scalar = VOf<A>>, ScOf<A>: ShiftHue<Sc
     "shift_hue" => run::<A>(i, "colour", |a, _, f, _| lanes_c(a.shift_hue(f)), |a, _, f, _| col(a.shift_hue(f))) });
 opfn!(op_clamp, { A: SNode + Clamp, ScOf<A>: Clamp }, |i| {
     "clamp" => run::<A>(i, "colour", |a, _, _, _| lanes_c(a.clamp()), |a, _, _, _| col(a.clamp())) });
+// the assigning forms (in place on the SIMD colour / on each scalar colour)
+opfn!(op_clamp_assign, { A: SNode + ClampAssign, ScOf<A>: ClampAssign }, |i| {
+    "clamp_assign" => run::<A>(i, "colour", |a, _, _, _| { let mut x = a; x.clamp_assign(); lanes_c(x) }, |a, _, _, _| { let mut x = a; x.clamp_assign(); col(x) }) });
+opfn!(op_mix_assign, { A: SNode + MixAssign<Scalar = VOf<A>>, ScOf<A>: MixAssign<Scalar = SOf<A>> }, |i| {
+    "mix_assign" => run::<A>(i, "colour", |a, b, f, _| { let mut x = a; x.mix_assign(b, f); lanes_c(x) }, |a, b, f, _| { let mut x = a; x.mix_assign(b, f); col(x) }) });
+opfn!(op_lighten_assign, { A: SNode + LightenAssign<Scalar = VOf<A>>, ScOf<A>: LightenAssign<Scalar = SOf<A>> }, |i| {
+    "lighten_assign" => run::<A>(i, "colour", |a, _, f, _| { let mut x = a; x.lighten_assign(f); lanes_c(x) }, |a, _, f, _| { let mut x = a; x.lighten_assign(f); col(x) }),
+    "lighten_fixed_assign" => run::<A>(i, "colour", |a, _, f, _| { let mut x = a; x.lighten_fixed_assign(f); lanes_c(x) }, |a, _, f, _| { let mut x = a; x.lighten_fixed_assign(f); col(x) }) });
+opfn!(op_saturate_assign, { A: SNode + SaturateAssign<Scalar = VOf<A>>, ScOf<A>: SaturateAssign<Scalar = SOf<A>> }, |i| {
+    "saturate_assign" => run::<A>(i, "colour", |a, _, f, _| { let mut x = a; x.saturate_assign(f); lanes_c(x) }, |a, _, f, _| { let mut x = a; x.saturate_assign(f); col(x) }),
+    "saturate_fixed_assign" => run::<A>(i, "colour", |a, _, f, _| { let mut x = a; x.saturate_fixed_assign(f); lanes_c(x) }, |a, _, f, _| { let mut x = a; x.saturate_fixed_assign(f); col(x) }) });
+opfn!(op_shift_hue_assign, { A: SNode + ShiftHueAssign<Scalar = VOf<A>>, ScOf<A>: ShiftHueAssign<Scalar = SOf<A>> }, |i| {
+    "shift_hue_assign" => run::<A>(i, "colour", |a, _, f, _| { let mut x = a; x.shift_hue_assign(f); lanes_c(x) }, |a, _, f, _| { let mut x = a; x.shift_hue_assign(f); col(x) }) });
 opfn!(op_within, { A: SNode + IsWithinBounds<Mask = VOf<A>>, ScOf<A>: IsWithinBounds<Mask = bool> }, |i| {
     "is_within_bounds" => run::<A>(i, "mask", |a, _, _, _| lanes_m(a.is_within_bounds()), |a, _, _, _| bnum(a.is_within_bounds())) });
 opfn!(op_arith_cc, { A: SNode + core::ops::Add<Output = A> + core::ops::Sub<Output = A>, ScOf<A>: core::ops::Add<Output = ScOf<A>> + core::ops::Sub<Output = ScOf<A>> }, |i| {
@@ -834,6 +879,11 @@ opcap!(PSaturate, YSaturate, NSaturate, op_saturate, { A: SNode + Saturate<Scala
 opcap!(PDesaturate, YDesaturate, NDesaturate, op_desaturate, { A: SNode + Desaturate<Scalar = VOf<A>>, ScOf<A>: Desaturate<Scalar = SOf<A>> });
 opcap!(PShiftHue, YShiftHue, NShiftHue, op_shift_hue, { A: SNode + ShiftHue<Scalar = VOf<A>>, ScOf<A>: ShiftHue<Scalar = SOf<A>> });
 opcap!(PClamp, YClamp, NClamp, op_clamp, { A: SNode + Clamp, ScOf<A>: Clamp });
+opcap!(PClampA, YClampA, NClampA, op_clamp_assign, { A: SNode + ClampAssign, ScOf<A>: ClampAssign });
+opcap!(PMixA, YMixA, NMixA, op_mix_assign, { A: SNode + MixAssign<Scalar = VOf<A>>, ScOf<A>: MixAssign<Scalar = SOf<A>> });
+opcap!(PLightenA, YLightenA, NLightenA, op_lighten_assign, { A: SNode + LightenAssign<Scalar = VOf<A>>, ScOf<A>: LightenAssign<Scalar = SOf<A>> });
+opcap!(PSaturateA, YSaturateA, NSaturateA, op_saturate_assign, { A: SNode + SaturateAssign<Scalar = VOf<A>>, ScOf<A>: SaturateAssign<Scalar = SOf<A>> });
+opcap!(PShiftHueA, YShiftHueA, NShiftHueA, op_shift_hue_assign, { A: SNode + ShiftHueAssign<Scalar = VOf<A>>, ScOf<A>: ShiftHueAssign<Scalar = SOf<A>> });
 opcap!(PWithin, YWithin, NWithin, op_within, { A: SNode + IsWithinBounds<Mask = VOf<A>>, ScOf<A>: IsWithinBounds<Mask = bool> });
 opcap!(PArithCc, YArithCc, NArithCc, op_arith_cc, { A: SNode + core::ops::Add<Output = A> + core::ops::Sub<Output = A>, ScOf<A>: core::ops::Add<Output = ScOf<A>> + core::ops::Sub<Output = ScOf<A>> });
 opcap!(PArithCs, YArithCs, NArithCs, op_arith_cs, { A: SNode + core::ops::Add<VOf<A>, Output = A> + core::ops::Sub<VOf<A>, Output = A> + core::ops::Mul<VOf<A>, Output = A> + core::ops::Div<VOf<A>, Output = A>,
@@ -850,7 +900,7 @@ opcap!(PImpCiede, YImpCiede, NImpCiede, op_improved_ciede, { A: SNode + Improved
 opcap!(PWcag, YWcag, NWcag, op_wcag, { A: SNode + Wcag21RelativeContrast<Scalar = VOf<A>>, ScOf<A>: Wcag21RelativeContrast<Scalar = SOf<A>> });
 
 /// (capability group, methods, arity: needs a second colour, needs factor f, needs factor g)
-pub const OP_GROUPS: [(&str, &[&str]); 20] = [
+pub const OP_GROUPS: [(&str, &[&str]); 25] = [
     ("mix", &["mix"]), ("lighten", &["lighten", "lighten_fixed"]), ("darken", &["darken", "darken_fixed"]),
     ("saturate", &["saturate", "saturate_fixed"]), ("desaturate", &["desaturate", "desaturate_fixed"]), ("shift_hue", &["shift_hue"]),
     ("clamp", &["clamp"]), ("within", &["is_within_bounds"]), ("arith_cc", &["add", "sub"]), ("arith_cs", &["add_s", "sub_s", "mul_s", "div_s"]),
@@ -859,6 +909,8 @@ pub const OP_GROUPS: [(&str, &[&str]); 20] = [
     ("compose", &["c_over", "c_inside", "c_outside", "c_atop", "c_xor", "c_plus"]),
     ("euclid", &["distance_squared", "distance"]), ("hyab", &["hybrid_distance"]), ("delta_e", &["delta_e"]), ("improved_delta_e", &["improved_delta_e"]),
     ("ciede", &["ciede2000"]), ("improved_ciede", &["improved_ciede2000"]), ("wcag", &["relative_luminance", "relative_contrast"]),
+    ("clamp_assign", &["clamp_assign"]), ("mix_assign", &["mix_assign"]), ("lighten_assign", &["lighten_assign", "lighten_fixed_assign"]),
+    ("saturate_assign", &["saturate_assign", "saturate_fixed_assign"]), ("shift_hue_assign", &["shift_hue_assign"]),
 ];
 macro_rules! ops_of {
     ($A:ty) => { vec![
@@ -868,6 +920,8 @@ macro_rules! ops_of {
         (&PArithMul::<$A>(PhantomData)).get(), (&PBlend::<$A>(PhantomData)).get(), (&PCompose::<$A>(PhantomData)).get(),
         (&PEuclid::<$A>(PhantomData)).get(), (&PHyab::<$A>(PhantomData)).get(), (&PDeltaE::<$A>(PhantomData)).get(), (&PImpDeltaE::<$A>(PhantomData)).get(),
         (&PCiede::<$A>(PhantomData)).get(), (&PImpCiede::<$A>(PhantomData)).get(), (&PWcag::<$A>(PhantomData)).get(),
+        (&PClampA::<$A>(PhantomData)).get(), (&PMixA::<$A>(PhantomData)).get(), (&PLightenA::<$A>(PhantomData)).get(),
+        (&PSaturateA::<$A>(PhantomData)).get(), (&PShiftHueA::<$A>(PhantomData)).get(),
     ] };
 }
 macro_rules! ops_row { ($T:ident; [$($A:ident),*]; $list:tt) => { vec![ $( ops_of!($A<$T>) ),* ] }; }
@@ -1123,6 +1177,7 @@ fn main() {
                 let fns = pack_fns();
                 for _ in 0..c["count"].as_u64().unwrap_or(1) {
                     for row in &fns { for f in row { for alpha in [false, true] { let e = f(&mut g.rng, alpha); d.rec.ev(e); } } }
+                    prealpha_pack_events(&mut g.rng, &mut d.rec);
                 }
             }
             "mask" => {
